@@ -153,6 +153,9 @@ where
             match ver.transition() {
                 Err(f) => ctx.violation(Violation::new(f.key, format!("{} [{} eps={} start={:?} script={:?}]", f.what, tname, b.eps, b.start, prefix), case)),
                 Ok(info) => {
+                    if info.depth >= 2 && !prefix.is_empty() {
+                        ctx.sample_tagged("one NUTS transition", || json!({"input": case.clone(), "choices": rec.decisions.iter().map(|d| format!("{}:{}/{}", d.kind, d.chosen, d.n)).collect::<Vec<_>>(), "depth": info.depth, "leaves": info.n_leaves, "moved": info.moved, "divergent": info.divergent, "start": info.start, "end": info.end}));
+                    }
                     local.total += 1;
                     local.max_depth = local.max_depth.max(info.depth);
                     if info.ambiguous {
@@ -236,7 +239,6 @@ pub fn run(ctx: &Ctx) {
     if g.ambiguous * 50 > g.total {
         ctx.machinery_error("more than 2 % of the transitions had a decision inside the rounding margin");
     }
-    ctx.sample(json!({"transition": {"target": "Rosenbrock2D", "eps": 0.5, "start": [0.4, 0.1], "script": [3, 0, 1, 0, 2], "meaning": "alphabet indices at the successive choice points (momentum, slice variate, direction, merge/accept uniforms ...), 0 = default"}}));
     ctx.assume("conventions Algorithm 6 does not fix are not pinned: which half of [0,1) maps to direction +1, whether the top-level uniform is drawn when s'=0, the parametrisation of the slice variate (only slice level = joint - e, e >= 0 is required)");
     ctx.assume("U-turn products within 1e-11 (f64) / 2e-5 (f32) relative of zero make a transition 'ambiguous': it is followed, not judged, and counted (guard: <= 2 %)");
 }
